@@ -17,6 +17,7 @@
 import json
 import logging
 import multiprocessing
+import os
 import random
 import re
 from concurrent.futures import ThreadPoolExecutor
@@ -43,6 +44,28 @@ DESIGN_STRINGS = [None, '', 'http://h100.example/a', 'http://h100.example/b?x=1&
                   "http://h101.example/ü '\"", 'http://h101.example/six', 'post=data&x=%41', 'dir/file name.html',
                   'http://root.example/']
 BAD_URL = 'http://[bad/'
+
+
+def _regressions():
+    """Minimal histories for the defects found while building this check (kept as regression scenarios; they
+    also give each known signature a short replay file)."""
+    plain = {'u': 2, 'hp': False, 'par': 0, 'root': 0, 'st': 'none', 'try': -1, 'lv': -1, 'il': -1, 'lt': 'none',
+             'pr': -1, 'post': 0}
+    add = lambda *es: {'op': 'add_many', 'batch': list(es)}
+    ci = {'op': 'check_in', 'u': 3, 'st': 'done', 'inc': True, 'hr': True, 'fn': 8, 'code': 200}
+    cco = {'op': 'convert_check_out'}
+    return [
+        # ItemSession.add_url(url) with its default URLProperties(): no parent_url / root_url in the whole batch
+        [add(dict(plain, hp=True))],
+        [add(dict(plain, hp=True, lv=1, par=3)), {'op': 'count'}],
+        # queued_files.queued_url_id is filled with url_strings.id: diverges from queued_urls.id as soon as a
+        # parent / root string that is not itself queued has been stored
+        [add(dict(plain, hp=True, par=9, root=9)), add(dict(plain, u=3)), ci, cco],
+        [add(dict(plain, hp=True, par=9, root=9)), add(dict(plain, u=3)), add(dict(plain, u=5)), ci, cco],
+        # remove_many leaves the queued_files row behind; the row id is reused by the next URL added
+        [add(dict(plain, u=3)), ci, {'op': 'remove_many', 'urls': [3]}, cco],
+        [add(dict(plain, u=3)), ci, {'op': 'remove_many', 'urls': [3]}, add(dict(plain, u=5)), cco],
+    ]
 
 
 def design_strings(nu, bad_last):
@@ -273,12 +296,17 @@ def _run(chk, quick, rng, pool):
         return tlc.run_tlc('URLTable', design_cfg(fx, nu, bad, pset, mb, mo, ops, fx == allfix), workers=3 if quick else 4,
                            timeout=2400, coverage=cov, heap='4g')
 
+    light = bool(os.environ.get('VERIF_C14_LIGHT'))   # mutant screening (drivers/urltable_mutants.py): no design checks
+    if light:
+        designs = []
     dex = ThreadPoolExecutor(max_workers=2)
     dfut = [dex.submit(design, d) for d in designs]
 
     # ---------------- 2. histories
     jobs = []      # (origin, job)
     modes = X.MODES
+    for i, h in enumerate(_regressions()):
+        jobs.append(('regression', ('fixed', list(DESIGN_STRINGS), h, modes[i % 2 * 2])))
     # (a1) one history per transition of the bounded reference model
     if quick:
         gens = [(2, True, '{1, 2, 3, 4}', 2, 2, ALL_OPS, None)]
@@ -290,7 +318,7 @@ def _run(chk, quick, rng, pool):
         strings = design_strings(g[0], g[1])
         for i, h in enumerate(hs):
             has_reopen = any(o['op'] == 'reopen' for o in h)
-            mode = modes[1 + 2 * (i % 2)] if has_reopen else modes[i % 4]
+            mode = modes[1 + 2 * (i % 2)] if has_reopen else modes[(0, 2, 0, 2, 1, 0, 2, 0, 2, 3)[i % 10]]
             jobs.append(('tlc-transition', ('fixed', strings, h, mode)))
         per_transition += len(hs)
         chk.extra.setdefault('transition_graphs', []).append(
@@ -299,7 +327,7 @@ def _run(chk, quick, rng, pool):
     # (a2) simulation: more URLs, 30 calls, depth-5 histories with 3 URLs
     sims = [(5, True, '{1, 2, 3, 4}', 2, 30, ALL_OPS, 10 if quick else 300),
             (3, True, '{1, 2, 3, 4}', 2, 5, ALL_OPS, 30 if quick else 1500)]
-    for j, g in enumerate(sims):
+    for j, g in enumerate([] if light else sims):
         hs, res = tlc_histories(fix, *g[:6], simulate=g[6], seed=chk.seed + 11 + j)
         strings = design_strings(g[0], g[1])
         for i, h in enumerate(hs):
@@ -334,7 +362,9 @@ def _run(chk, quick, rng, pool):
         chk.trace_stats(st)
     timing['validated'] = round(time.time() - t0, 1)
     ndrift = 0
-    for origin, tr, m, s in zip(origins, traces, mv, sv):
+    # shortest histories first: the replay file of a signature is written at its first occurrence
+    order = sorted(range(len(traces)), key=lambda i: (len(traces[i]['ev']), i))
+    for origin, tr, m, s in [(origins[i], traces[i], mv[i], sv[i]) for i in order]:
         chk.case(key=None)
         chk.validated(1)
         chk.distinct.add(json.dumps(tr['history'], sort_keys=True) + tr['mode'])
@@ -360,7 +390,7 @@ def _run(chk, quick, rng, pool):
                 'TLC -simulate histories (5 URLs x 30 calls, 3 URLs x 5 calls), seeded random histories of 50-200 calls '
                 'over 10-20 arbitrary URL strings; distinct = distinct (history, mode) pairs')
     chk.exhaustive = False
-    chk.extra['origins'] = {o: origins.count(o) for o in ('tlc-transition', 'tlc-simulation', 'random')}
+    chk.extra['origins'] = {o: origins.count(o) for o in ('regression', 'tlc-transition', 'tlc-simulation', 'random')}
     chk.extra['calls_executed'] = sum(len(t['ev']) for t in traces)
     chk.extra['modes'] = {m: sum(1 for t in traces if t['mode'] == m) for m in X.MODES}
     chk.extra['strict_rejections'] = ndrift
@@ -394,8 +424,18 @@ def selftest(chk):
     and corruptions of observable results make the monitor name the right clause."""
     logging.disable(logging.CRITICAL)
     fix = detect_fixes()
-    from drivers.urltable_hist import Generator
-    base = Generator(chk.seed + 5, 60, 'wrapper-disk').run()
+    plain = {'u': 2, 'hp': False, 'par': 0, 'root': 0, 'st': 'none', 'try': -1, 'lv': -1, 'il': -1, 'lt': 'none',
+             'pr': -1, 'post': 0}
+    child = dict(plain, u=3, hp=True, par=2, root=2, lv=1)
+    kv = {'st': 'error', 'try': -2, 'lv': -2, 'il': -2, 'lt': 'absent', 'pr': -2, 'post': -2, 'code': -2, 'fn': -2}
+    history = [{'op': 'add_many', 'batch': [plain, child, dict(plain, lv=3, hp=True, par=3, root=3)]},
+               {'op': 'check_out', 'st': 'todo', 'lv': -1},
+               {'op': 'check_in', 'u': 2, 'st': 'done', 'inc': True, 'hr': True, 'fn': 8, 'code': 200},
+               {'op': 'add_many', 'batch': [child, dict(plain, u=5)]},
+               {'op': 'check_out', 'st': 'todo', 'lv': 1},
+               {'op': 'reopen'}, {'op': 'release'}, {'op': 'update_one', 'u': 3, 'kv': kv},
+               {'op': 'remove_many', 'urls': [5]}, {'op': 'count'}, {'op': 'get_all'}, {'op': 'get_one', 'u': 3}]
+    base = X.execute(list(DESIGN_STRINGS), history, 'wrapper-disk')
     results = []
 
     def check(name, tr, want_strict_reject, want_clause=None):
@@ -411,10 +451,6 @@ def selftest(chk):
         return json.loads(json.dumps(base))
 
     ev = base['ev']
-    # the base trace is clean up to its first genuine violation (if any): cut there
-    mv, _ = monitor_batch([slim(base)])
-    if mv[0]['bad']:
-        base['ev'] = ev = ev[:mv[0]['bad'][0][0]]
     check('unmodified', clone(), False)
     i_add = next(i for i, e in enumerate(ev) if e['op'] == 'add_many' and e['res']['urls'])
     t = clone(); t['ev'][i_add]['res']['urls'] = t['ev'][i_add]['res']['urls'][:-1]
